@@ -282,6 +282,8 @@ def unwrap(n):
             n = n.get("e")
         elif k == "construct" and n.get("elidable") and len(n.get("args", [])) == 1:
             n = n["args"][0]
+        elif k == "paren_list" and len(n.get("elems", [])) == 1:
+            n = n["elems"][0]
         else:
             break
     return n
